@@ -9,10 +9,18 @@
  *   newv c K p...      K in A L         constructor with initial elements           (Array_New / List_New)
  *   newm c K k v ...   K in T R         constructor with initial pairs              (Table_New / Tree_New)
  *   box c p            stand-alone Box owning a fresh probe
- *   push c p | append c p | pushat c i p | pop c | popat c i | set c i p | rem c p | resize c n | sort c
+ *   push c p | append c p | pushat c i p | pop c | popat c i | set c i p | rem c p | resize c n | sort c | concatv c a...
  *   concat c d | assign c d | copy c d (c := copy(d)) | mset c k v | mrem c k | del c | bassign c d | bref c p
  *   (assign: within the sequence family, within the map family, and Array/List <- Table/Tree; bref: ref(box, new probe))
  *   read c             len / foreach / get / mem / hash / eq (deref for a Box): must not touch any element
+ * Wrong-typed arguments: wherever a payload p / k / v stands above (push append pushat set rem mset mrem newv newm) the token
+ * may be !I !S !F !T !N — an Int, a String, a Float, a Type object (Int), NULL passed where a probe element / key / value
+ * is expected; the call must be refused (ValueError from `cast` resp. from the element's own Assign / Cmp, or the index
+ * error that comes first) and must leave nothing behind (no element constructed that is not held, nothing finalised).
+ *   concatv c a...     concat(c, tuple(a...)) for an Array / List of probes: the source is a Tuple of argument objects
+ *   newv / newm with a wrong-typed argument run as construct_with(alloc(T), args) (what new_with does) so that the harness
+ *   holds the half-built object when the constructor raises; it is deleted at once (what the collector would do later).
+ * Not applicable (bad-op) to containers of Box: Box_Assign takes any object.
  * After the last line every remaining container is deleted (lowest name first), then `O end live=N` is printed.
  *
  * One `O` line per op (the Lean driver must print the same):
@@ -34,7 +42,10 @@
  *   own-leak-at-end       live tokens after deleting every container
  *   own-crash             the child process died (ASan/UBSan/signal/timeout)
  *   own-list-pushat-leak  a refused List push_at left a constructed element behind (defect repaired by 4077d96)
- * Known-finding signatures: own-box-assign-shallow, own-list-resize-raw, own-array-assign-partial.
+ *   own-type-accepted     a call with a wrong-typed argument was not refused
+ * Known-finding signatures: own-box-assign-shallow, own-list-resize-raw, own-array-assign-partial, own-array-new-partial;
+ * kf-c12-array-push-type (a finding recorded under C12: Array_Push / Push_At / Concat grow the array before the element's
+ * type check; printed — and the oracle suspended — when a replay enters that territory, never generated for C05).
  * The whole file runs in a forked child with alarm(); the parent reports how the child ended.
  */
 #include "common.h"
@@ -413,6 +424,21 @@ static int parse_int(const char* s, int64_t* out, int allow_neg) {
 #define MAXTOK 300
 #define RN(e) ((e) ? v_exc_name(e) : "ok")
 
+/* argument token: a payload, or a wrong-typed object */
+typedef struct { int wrong; int64_t pay; } ArgTok;
+static int parse_arg(const char* s, ArgTok* a) {
+  if (s[0] == '!') { if (!s[1] || s[2] || !strchr("ISFTN", s[1])) return 0; a->wrong = s[1]; a->pay = 0; return 1; }
+  a->wrong = 0; return parse_int(s, &a->pay, 0);
+}
+static var W_INT, W_STR, W_FLT;                       /* live on child_main's frame */
+static var wrong_obj(int code) {
+  switch (code) { case 'I': return W_INT; case 'S': return W_STR; case 'F': return W_FLT; case 'T': return Int; default: return NULL; }
+}
+static void must_refuse(var exc, const char* what) {
+  if (!exc && oracle_on) X("sig=own-type-accepted line=%zu what=%s with a wrong-typed argument was accepted", cur_line, what);
+}
+#define KF_ARRAY_GROWS "F15 (recorded under C12): the array made room (nitems, memmove, zero-filled / uninitialised records) before the element's own type check raised: len counts records that were never constructed"
+
 /* kind token: A | L | T | R | B, optionally followed by the element types (p = small probe, g = large):
    one letter for A / L (element), two for T / R (key, value); none for B */
 static int parse_kind(const char* s, const char* allowed, int* K, int* kt, int* vt) {
@@ -461,19 +487,83 @@ static int run_op(var* H, char** tk, int nt) {
     int K, kt, vt;
     if (nt < 3 || !NUM(1, c, 0) || !parse_kind(tk[2], m ? "TR" : "AL", &K, &kt, &vt) || !free_name(c)) return 0;
     int na = nt - 3; if (m && na % 2) return 0;
-    int64_t* ps = malloc((na + 1) * sizeof(int64_t));
-    for (int j = 0; j < na; j++) if (!NUM(3 + j, ps[j], 0)) { free(ps); return 0; }
+    ArgTok* as = malloc((na + 1) * sizeof(ArgTok));
+    int ngood = -1;                                    /* arguments before the first wrong-typed one (maps: whole pairs) */
+    for (int j = 0; j < na; j++) {
+      if (!parse_arg(tk[3 + j], &as[j])) { free(as); return 0; }
+      if (as[j].wrong && ngood < 0) ngood = m ? (j / 2) * 2 : j;
+    }
     ArgBuf* abs = malloc((na + 1) * sizeof(ArgBuf));
     var* items = malloc((na + 4) * sizeof(var));
     int q = 0; items[q++] = ty(kt); if (m) items[q++] = ty(vt);
-    for (int j = 0; j < na; j++) items[q++] = mk_arg_t(&abs[j], ps[j], m ? ((j % 2) ? vt : kt) : kt);
+    for (int j = 0; j < na; j++) items[q++] = as[j].wrong ? wrong_obj(as[j].wrong) : mk_arg_t(&abs[j], as[j].pay, m ? ((j % 2) ? vt : kt) : kt);
     items[q] = Terminal;
     var args = $(Tuple, items);
-    V_TRY(exc, H[c] = new_with(K == 'A' ? Array : K == 'L' ? List : K == 'T' ? Table : Tree, args));
-    sh[c].kind = K; sh[c].kt = kt; sh[c].vt = vt;
-    if (m) for (int j = 0; j + 1 < na; j += 2) mset_ref(&sh[c], ps[j], ps[j+1]);
-    else for (int j = 0; j < na; j++) vpush(&sh[c].a, ps[j]);
-    free(ps); free(abs); free(items);
+    var ctype = K == 'A' ? Array : K == 'L' ? List : K == 'T' ? Table : Tree;
+    if (ngood < 0) {
+      V_TRY(exc, H[c] = new_with(ctype, args));
+      sh[c].kind = K; sh[c].kt = kt; sh[c].vt = vt;
+      if (m) for (int j = 0; j + 1 < na; j += 2) mset_ref(&sh[c], as[j].pay, as[j+1].pay);
+      else for (int j = 0; j < na; j++) vpush(&sh[c].a, as[j].pay);
+    } else {
+      /* a wrong-typed initial element / key / value: new_with = construct_with(alloc(T), args), done in two steps so that the
+         half-built object is in hand when the constructor raises (the caller of new_with never gets it; it is registered
+         with the collector, which finalises it at its next sweep: the harness does that at once) */
+      var obj = alloc(ctype);
+      V_TRY(exc, construct_with(obj, args));
+      must_refuse(exc, "constructor");
+      if (exc) {
+        if (K == 'A') {
+          /* Array_New set nitems = len(args) - 1 and malloc'ed before the loop: the record of the wrong element is zero-filled,
+             the ones after it are uninitialised memory that Array_Del (run by the collector) will destruct */
+          struct Array* a = obj;
+          if (a->nitems == (size_t)na && a->data) {
+            for (size_t r = (size_t)ngood + 1; r < a->nitems; r++) Array_Alloc(a, r);   /* make them destructible: zero-filled, as the model has them */
+            kf("own-array-new-partial", "Array_New set nitems = number of initial elements and malloc'ed the records before any element exists; a wrong-typed element raised: the half-built array (finalised by the collector) counts records that were never constructed (one zero-filled, the rest uninitialised memory that Array_Del destructs)");
+          }
+        }
+        var exc2; V_TRY(exc2, del(obj));
+        if (exc2 && oracle_on) X("sig=own-corrupt line=%zu what=deleting the half-built container raised %s", cur_line, RN(exc2));
+      } else {
+        H[c] = obj; sh[c].kind = K; sh[c].kt = kt; sh[c].vt = vt;     /* accepted (already reported): keep it so that it is deleted at the end */
+        if (m) for (int j = 0; j + 1 < ngood; j += 2) mset_ref(&sh[c], as[j].pay, as[j+1].pay);
+        else for (int j = 0; j < ngood; j++) vpush(&sh[c].a, as[j].pay);
+      }
+    }
+    free(as); free(abs); free(items);
+    check_and_print(H, RN(exc), (int)c, -1); return 1;
+  }
+  if (!strcmp(op, "concatv")) {
+    /* concat(c, tuple(args...)): Array_Concat reserves len(obj) records first, List_Concat pushes item by item */
+    if (nt < 2 || !NUM(1, c, 0) || !used_name(c) || (sh[c].kind != K_ARR && sh[c].kind != K_LST)) return 0;
+    int na = nt - 2;
+    ArgTok* as = malloc((na + 1) * sizeof(ArgTok));
+    int ngood = -1;
+    for (int j = 0; j < na; j++) {
+      if (!parse_arg(tk[2 + j], &as[j])) { free(as); return 0; }
+      if (as[j].wrong && ngood < 0) ngood = j;
+    }
+    ArgBuf* abs = malloc((na + 1) * sizeof(ArgBuf));
+    var* items = malloc((na + 2) * sizeof(var));
+    for (int j = 0; j < na; j++) items[j] = as[j].wrong ? wrong_obj(as[j].wrong) : mk_arg_t(&abs[j], as[j].pay, sh[c].kt);
+    items[na] = Terminal;
+    var src = $(Tuple, items);
+    size_t oldn = sh[c].a.n;
+    V_TRY(exc, concat(H[c], src));
+    int g = ngood < 0 ? na : ngood;
+    for (int j = 0; j < g; j++) vpush(&sh[c].a, as[j].pay);        /* the items before a wrong-typed one are constructed and stay */
+    if (ngood >= 0) {
+      must_refuse(exc, "concat");
+      if (sh[c].kind == K_ARR && exc) {
+        struct Array* a = H[c];
+        if (a->nitems == oldn + (size_t)na) {
+          for (size_t r = oldn + (size_t)g + 1; r < a->nitems; r++) Array_Alloc(a, r);   /* uninitialised after the realloc: zero-filled, as the model has them */
+          for (int j = g; j < na; j++) vpush(&sh[c].a, -1);
+          kf("kf-c12-array-push-type", KF_ARRAY_GROWS);
+        }
+      }
+    } else if (exc && oracle_on) X("sig=own-contents line=%zu what=concat from a Tuple of well-typed elements raised %s", cur_line, RN(exc));
+    free(as); free(abs); free(items);
     check_and_print(H, RN(exc), (int)c, -1); return 1;
   }
   if (!strcmp(op, "box")) {
@@ -484,8 +574,19 @@ static int run_op(var* H, char** tk, int nt) {
     check_and_print(H, "ok", (int)c, -1); return 1;
   }
   if (!strcmp(op, "push") || !strcmp(op, "append")) {
-    if (nt != 3 || !NUM(1, c, 0) || !NUM(2, p, 0) || !used_name(c) || !is_seq(sh[c].kind)) return 0;
+    ArgTok a1;
+    if (nt != 3 || !NUM(1, c, 0) || !parse_arg(tk[2], &a1) || !used_name(c) || !is_seq(sh[c].kind)) return 0;
     int app = op[0] == 'a';
+    p = a1.pay;
+    if (a1.wrong) {
+      /* List_Push: List_Alloc, then the element's assign raises: nothing linked.  Array_Push: the array has grown (F15) */
+      if (is_boxseq(sh[c].kind)) return 0;
+      var wo = wrong_obj(a1.wrong);
+      if (app) V_TRY(exc, append(H[c], wo)); else V_TRY(exc, push(H[c], wo));
+      must_refuse(exc, "push");
+      if (sh[c].kind == K_ARR && exc && ((struct Array*)H[c])->nitems == sh[c].a.n + 1) { vpush(&sh[c].a, -1); kf("kf-c12-array-push-type", KF_ARRAY_GROWS); }
+      check_and_print(H, RN(exc), (int)c, -1); return 1;
+    }
     if (is_boxseq(sh[c].kind)) {
       var pt = mk_pointee(p);
       if (app) V_TRY(exc, append(H[c], $(Box, pt))); else V_TRY(exc, push(H[c], $(Box, pt)));
@@ -497,8 +598,24 @@ static int run_op(var* H, char** tk, int nt) {
     check_and_print(H, RN(exc), (int)c, -1); return 1;
   }
   if (!strcmp(op, "pushat")) {
-    if (nt != 4 || !NUM(1, c, 0) || !NUM(2, i, 1) || !NUM(3, p, 0) || !used_name(c) || !is_seq(sh[c].kind)) return 0;
+    ArgTok a1;
+    if (nt != 4 || !NUM(1, c, 0) || !NUM(2, i, 1) || !parse_arg(tk[3], &a1) || !used_name(c) || !is_seq(sh[c].kind)) return 0;
+    p = a1.pay;
     size_t ln = sh[c].a.n; ctx_op = OP_PUSHAT; ctx_kind = sh[c].kind;
+    if (a1.wrong) {
+      /* the index check comes first in both; past it List_Push_At allocates a node and the element's assign raises (nothing
+         linked), Array_Push_At has already moved the tail and zero-filled the record (F15) */
+      if (is_boxseq(sh[c].kind)) return 0;
+      ctx_op = OP_OTHER;
+      V_TRY(exc, push_at(H[c], wrong_obj(a1.wrong), $I(i)));
+      must_refuse(exc, "push_at");
+      if (sh[c].kind == K_ARR && exc && ((struct Array*)H[c])->nitems == ln + 1) {
+        int64_t j = i < 0 ? (int64_t)ln + 1 + i : i;
+        if (j >= 0 && j <= (int64_t)ln) vins(&sh[c].a, (size_t)j, -1);
+        kf("kf-c12-array-push-type", KF_ARRAY_GROWS);
+      }
+      check_and_print(H, RN(exc), (int)c, -1); return 1;
+    }
     if (is_boxseq(sh[c].kind)) { var pt = mk_pointee(p); V_TRY(exc, push_at(H[c], $(Box, pt), $I(i))); if (exc) del(pt); }
     else V_TRY(exc, push_at(H[c], mk_arg_t(&ab, p, sh[c].kt), $I(i)));
     /* reference: Array normalises against len+1 (the end is a valid position); List: 0 = head, otherwise the
@@ -526,7 +643,16 @@ static int run_op(var* H, char** tk, int nt) {
     check_and_print(H, RN(exc), (int)c, -1); return 1;
   }
   if (!strcmp(op, "set")) {
-    if (nt != 4 || !NUM(1, c, 0) || !NUM(2, i, 1) || !NUM(3, p, 0) || !used_name(c) || !is_seq(sh[c].kind)) return 0;
+    ArgTok a1;
+    if (nt != 4 || !NUM(1, c, 0) || !NUM(2, i, 1) || !parse_arg(tk[3], &a1) || !used_name(c) || !is_seq(sh[c].kind)) return 0;
+    p = a1.pay;
+    if (a1.wrong) {
+      /* bounds check, then assign onto the stored element: its Assign validates the argument before it touches itself */
+      if (is_boxseq(sh[c].kind)) return 0;
+      V_TRY(exc, set(H[c], $I(i), wrong_obj(a1.wrong)));
+      must_refuse(exc, "set");
+      check_and_print(H, RN(exc), (int)c, -1); return 1;
+    }
     ctx_op = OP_SET; ctx_kind = sh[c].kind;
     if (is_boxseq(sh[c].kind)) { var pt = mk_pointee(p); V_TRY(exc, set(H[c], $I(i), $(Box, pt))); if (exc) del(pt); }
     else V_TRY(exc, set(H[c], $I(i), mk_arg_t(&ab, p, !sh[c].kt)));   /* an argument of the other element type: the elements are convertible */
@@ -536,7 +662,15 @@ static int run_op(var* H, char** tk, int nt) {
     check_and_print(H, RN(exc), (int)c, -1); return 1;
   }
   if (!strcmp(op, "rem")) {
-    if (nt != 3 || !NUM(1, c, 0) || !NUM(2, p, 0) || !used_name(c) || (sh[c].kind != K_ARR && sh[c].kind != K_LST)) return 0;
+    ArgTok a1;
+    if (nt != 3 || !NUM(1, c, 0) || !parse_arg(tk[2], &a1) || !used_name(c) || (sh[c].kind != K_ARR && sh[c].kind != K_LST)) return 0;
+    p = a1.pay;
+    if (a1.wrong) {
+      /* eq(item, obj) on the first element raises (the element's Cmp casts its argument); an empty sequence has no such object */
+      V_TRY(exc, rem(H[c], wrong_obj(a1.wrong)));
+      must_refuse(exc, "rem");
+      check_and_print(H, RN(exc), (int)c, -1); return 1;
+    }
     V_TRY(exc, rem(H[c], mk_arg_t(&ab, p, sh[c].kt)));
     for (size_t j = 0; j < sh[c].a.n; j++) if (sh[c].a.v[j] == p || (p == 0 && sh[c].a.v[j] < 0)) { verase(&sh[c].a, j); break; }
     check_and_print(H, RN(exc), (int)c, -1); return 1;
@@ -606,13 +740,30 @@ static int run_op(var* H, char** tk, int nt) {
     check_and_print(H, RN(exc), (int)c, (int)d); return 1;
   }
   if (!strcmp(op, "mset")) {
-    if (nt != 4 || !NUM(1, c, 0) || !NUM(2, k, 0) || !NUM(3, v, 0) || !used_name(c) || !is_map(sh[c].kind)) return 0;
+    ArgTok ka, va;
+    if (nt != 4 || !NUM(1, c, 0) || !parse_arg(tk[2], &ka) || !parse_arg(tk[3], &va) || !used_name(c) || !is_map(sh[c].kind)) return 0;
+    k = ka.pay; v = va.pay;
+    if (ka.wrong || va.wrong) {
+      /* Table_Set_Move / Tree_Set cast key and value before anything else: ValueError, nothing allocated, nothing assigned */
+      var ko = ka.wrong ? wrong_obj(ka.wrong) : mk_arg_t(&ab, k, sh[c].kt);
+      var vo = va.wrong ? wrong_obj(va.wrong) : mk_arg_t(&ab2, v, sh[c].vt);
+      V_TRY(exc, set(H[c], ko, vo));
+      must_refuse(exc, "set");
+      check_and_print(H, RN(exc), (int)c, -1); return 1;
+    }
     V_TRY(exc, set(H[c], mk_arg_t(&ab, k, sh[c].kt), mk_arg_t(&ab2, v, sh[c].vt)));
     mset_ref(&sh[c], k, v);
     check_and_print(H, RN(exc), (int)c, -1); return 1;
   }
   if (!strcmp(op, "mrem")) {
-    if (nt != 3 || !NUM(1, c, 0) || !NUM(2, k, 0) || !used_name(c) || !is_map(sh[c].kind)) return 0;
+    ArgTok ka;
+    if (nt != 3 || !NUM(1, c, 0) || !parse_arg(tk[2], &ka) || !used_name(c) || !is_map(sh[c].kind)) return 0;
+    k = ka.pay;
+    if (ka.wrong) {
+      V_TRY(exc, rem(H[c], wrong_obj(ka.wrong)));                /* the key is cast before the lookup */
+      must_refuse(exc, "rem");
+      check_and_print(H, RN(exc), (int)c, -1); return 1;
+    }
     V_TRY(exc, rem(H[c], mk_arg_t(&ab, k, sh[c].kt)));
     long j = mfind(&sh[c], k);
     if (j >= 0) { verase(&sh[c].a, (size_t)j); verase(&sh[c].b, (size_t)j); }
@@ -678,6 +829,7 @@ static int run_op(var* H, char** tk, int nt) {
 static int child_main(char** lines, size_t n) {
   var H[NC];                                           /* handles live on this stack frame: the collector scans it */
   memset(H, 0, sizeof H);
+  W_INT = $I(41); W_STR = $S("wrong"); W_FLT = $F(1.5);
   size_t nops = 0, nbad = 0;
   for (size_t li = 0; li < n; li++) {
     char* l = lines[li];
